@@ -632,9 +632,8 @@ impl Apply for ChainedContextLookup<'_> {
                     None,
                 );
 
-                if input_matches {
-                    end_index = match_end;
-                }
+                // On a failed input match `match_end` is the end of the span that was inspected.
+                end_index = match_end.max(end_index);
 
                 if !(input_matches
                     && match_lookahead(
@@ -815,9 +814,8 @@ fn apply_chain_context(
         None,
     );
 
-    if input_matches {
-        end_index = match_end;
-    }
+    // On a failed input match `match_end` is the end of the span that was inspected.
+    end_index = match_end.max(end_index);
 
     if !(input_matches && match_lookahead(ctx, lookahead.len(), &f2, match_end, &mut end_index)) {
         ctx.buffer
